@@ -92,6 +92,10 @@ def check(run):
     nwr = engines.stream_writes_within_buffer(run, [f for f in fx.repo_functions() if f.file.endswith('pcap.cpp')])
     if nwr < 2:
         run.broke('fewer than 2 payload writes found in pcap.cpp (%d)' % nwr)
+    run.clause('R13f payloads and byte counts never come from beyond a buffer: every copy out of a packet is bounded by what is left of the payload behind the read position (shared with C05/C08; what lies beyond is whatever the allocator left there)')
+    ncw = engines.copies_within_source(run, [f for f in fx.repo_functions() if q.top_function(fx, f).cls in ('sim::asio::ip::udp::socket', 'sim::asio::ip::tcp::socket')], rule='R13f')
+    if ncw < 2:
+        run.broke('fewer than 2 copies out of packet payloads found (udp receive_from_impl, tcp read_some_impl)')
     r13b(run, OUTPUT_ONLY)
     r13c(run, OUTPUT_ONLY)
     r13d(run, simlib.REPO_PREFIX)
